@@ -14,7 +14,7 @@ _LITERAL = re.compile(r'^\d+(?:\.\d*)?(?:e[+-]\d+)?$')
 
 def plan(tier, seed):
     nsh = 16
-    n = 6000 if tier == 'quick' else 600000
+    n = 30000 if tier == 'quick' else 700000
     specs = [{'part': 'doubles', 'n': n, 'shard': sh, 'timeout': 3000} for sh in range(nsh)]
     specs.append({'part': 'special', 'shard': 0})
     specs.append({'part': 'parsers', 'n': 3000 if tier == 'quick' else 100000, 'shard': 1})
